@@ -25,6 +25,8 @@ define_language! {
         /// a Slot field AFTER an AppliedId field / after a Bind field
         W(AppliedId, Slot) = "w",
         Wb(Bind<AppliedId>, Slot) = "wb",
+        /// three children (the same child class at non-adjacent positions: ite(A, B, A))
+        Ite(AppliedId, AppliedId, AppliedId) = "ite",
         Num(u32),
         Sym(Symbol),
     }
